@@ -29,7 +29,7 @@ type c13Case struct {
 	Panic    string    `json:"panic"`    // "" | first | aftercalls | toooften | unknown | late
 	Transfer string    `json:"transfer"` // data | bdat1 | bdat3 | bdatfail
 	Backend  string    `json:"backend"`  // lmtp | plain
-	Reject   string    `json:"reject"`   // "" | first | middle: an extra recipient refused at RCPT time at that position
+	Reject   string    `json:"reject"`   // "" | first | middle: an extra recipient refused at RCPT time at that position; badbdat-first | badbdat-middle: a malformed (refused) BDAT command at that position
 	Second   []string  `json:"second"`   // recipient list of a second transaction on the same connection (every occurrence gets its own status)
 }
 
@@ -86,7 +86,7 @@ func c13Run(ctx *core.Ctx) {
 						for k, a := range sq {
 							calls = append(calls, c13Call{Addr: a, Nil: (idx+k)%5 == 0})
 						}
-						emit(c13Case{Rcpts: rc, Calls: calls, Timing: timing, RetErr: ret, Transfer: transfer, Backend: "lmtp", Reject: []string{"", "", "first", "middle"}[idx%4]})
+						emit(c13Case{Rcpts: rc, Calls: calls, Timing: timing, RetErr: ret, Transfer: transfer, Backend: "lmtp", Reject: []string{"", "badbdat-middle", "first", "middle", "badbdat-first", ""}[idx%6]})
 						if true {
 							for _, t2 := range []string{"before", "after", "interleaved"} {
 								if t2 != timing {
@@ -146,11 +146,11 @@ func c13Exec(ctx *core.Ctx, c c13Case) {
 		}
 		code := []int{550, 451, 552, 450}[k%4]
 		ec := smtp.EnhancedCode{code / 100, 1, k % 7}
-		return &smtp.SMTPError{Code: code, EnhancedCode: ec, Message: tokenOf(k) + " per-recipient status"}
+		return &smtp.SMTPError{Code: code, EnhancedCode: ec, Message: tokenOf(k) + " per-recipient status 100% %s %d%%"}
 	}
 	retErr := error(nil)
 	if c.RetErr {
-		retErr = &smtp.SMTPError{Code: 554, EnhancedCode: smtp.EnhancedCode{5, 6, 0}, Message: "v#ret overall result"}
+		retErr = &smtp.SMTPError{Code: 554, EnhancedCode: smtp.EnhancedCode{5, 6, 0}, Message: "v#ret overall result 50% full %v"}
 	}
 	rig.BE.H.Rcpt = func(sess int, to string, o *smtp.RcptOptions) error {
 		if strings.HasPrefix(to, "rej") {
@@ -231,6 +231,10 @@ func c13Exec(ctx *core.Ctx, c c13Case) {
 	for i, rc := range c.Rcpts {
 		if (c.Reject == "first" && i == 0) || (c.Reject == "middle" && i == len(c.Rcpts)/2 && i > 0) {
 			rcptLines = append(rcptLines, "RCPT TO:<rej@x.test>")
+		}
+		if (c.Reject == "badbdat-first" && i == 1) || (c.Reject == "badbdat-middle" && i == len(c.Rcpts)/2 && i > 0) {
+			// a BDAT refused for its syntax is not a chunk: the transaction simply goes on
+			rcptLines = append(rcptLines, []string{"BDAT 0 FINAL", "BDAT 0 LAST now", "BDAT x1"}[(i+len(c.Calls))%3])
 		}
 		rcptLines = append(rcptLines, "RCPT TO:<"+c13Addr(rc)+">")
 	}
@@ -531,6 +535,16 @@ func c13Exec(ctx *core.Ctx, c c13Case) {
 		} else if r.Code != w.code || !strings.Contains(txt, w.token) {
 			fail("C13:attribution", fmt.Sprintf("reply #%d for <%s> is %s, the reference attributes status %d %s", i, rc, r, w.code, w.token))
 			return
+		} else {
+			// the status text itself must arrive verbatim after the recipient
+			full := "v#ret overall result 50% full %v"
+			if w.token != "v#ret" {
+				full = w.token + " per-recipient status 100% %s %d%%"
+			}
+			if !strings.HasSuffix(txt, "<"+rc+"> "+full) {
+				fail("C13:status-text-altered", fmt.Sprintf("reply #%d for <%s> is %q, the backend's status text is %q", i, rc, txt, full))
+				return
+			}
 		}
 	}
 	cls := fmt.Sprintf("%s/%s/%s", c.Backend, c.Transfer, c.Panic)
